@@ -1,5 +1,5 @@
 (* C17 -- topology and propagation delays are reconstructed correctly from port timestamps. *)
-From EC Require Import Base.Prelude Base.Bytes Dc.Topo Dc.TopoProofs Dc.Chain.
+From EC Require Import Base.Prelude Base.Bytes Dc.Topo Dc.TopoProofs Dc.Chain Dc.Tree Dc.TreeProofs Dc.TreeRefine.
 Local Open Scope N_scope.
 
 (* For ANY port reports of ANY number of devices (open/closed flags and 32-bit port times chosen
@@ -49,3 +49,34 @@ Theorem c17_chain_example :
   exists out, assign Debug (mk_devs 0 (reps 1000 300 [50; 120; 80])) = Ok out /\ map d_delay out = [0; 350; 770; 1150].
 Proof. exact chain_example. Qed.
 Print Assumptions c17_chain_example.
+
+(* ---- the parent of every SubDevice is its true upstream neighbour: EVERY tree ---- *)
+
+(* The parent search of src/dc.rs looks at two numbers per device: how many ports it has open and
+   how many of its downstream ports have been handed out (Dc/Tree.v states the search over those).
+   Run over the ring order of ANY tree - a device, then its subtrees in port order - it gives
+   every device its true parent, never fails, and ends with every downstream port handed out. *)
+Theorem c17_tree_search : forall t, arun [] (ipre 0 t) = Some (fulls 0 t, tpar 0 None t).
+Proof. exact tree_parents. Qed.
+Print Assumptions c17_tree_search.
+
+(* The full model (port lists with receive times, the hand-out of ports by next_assignable_port,
+   the delay computation in between) refines that search - whatever the port times, DC
+   capabilities and the build mode: for the devices of ANY tree reported in ring order, each with
+   as many open ports as it has children plus the one it is entered through, a successful
+   assignment records for every device its true upstream neighbour. *)
+Theorem c17_tree_parents : forall md t l out,
+  map (fun x => nact (fst (fst x))) l = map (fun p => S (snd p)) (ipre 0 t) ->
+  assign md (mk_devs 0 l) = Ok out ->
+  map d_parent out = tpar 0 None t.
+Proof. exact tree_parents_assigned. Qed.
+Print Assumptions c17_tree_parents.
+
+(* not vacuous: a coupler with a line of two on one port and a fork on the next *)
+Theorem c17_tree_example :
+  map (fun x => nact (fst (fst x))) ex_reports = map (fun p => S (snd p)) (ipre 0 ex_tree) /\
+  exists out, assign Debug (mk_devs 0 ex_reports) = Ok out /\
+              map d_parent out = [None; Some 0; Some 1; Some 0; Some 3; Some 3] /\
+              tpar 0 None ex_tree = [None; Some 0; Some 1; Some 0; Some 3; Some 3].
+Proof. exact tree_example. Qed.
+Print Assumptions c17_tree_example.
